@@ -117,7 +117,7 @@ pub fn run_op<T: Read + Seek>(rd: &mut E57Reader<T>, op: &ReadOp, free: &[(u64, 
                 Err(e) => return OpOut { items: vec![], completed: false, err: Some(e.to_string()) },
             };
             let mut out = OpOut { items: vec![], completed: false, err: None };
-            let limit = (*take as u64).min(pc.records + 2);
+            let limit = (*take as u64).min(pc.records.saturating_add(2));
             for item in it {
                 if out.items.len() as u64 >= limit {
                     return out; // abandoned early
@@ -145,7 +145,7 @@ pub fn run_op<T: Read + Seek>(rd: &mut E57Reader<T>, op: &ReadOp, free: &[(u64, 
             };
             set_opts(&mut it, Opts::from_bits(*opts));
             let mut out = OpOut { items: vec![], completed: false, err: None };
-            let limit = (*take as u64).min(pc.records + 2);
+            let limit = (*take as u64).min(pc.records.saturating_add(2));
             for item in it {
                 if out.items.len() as u64 >= limit {
                     return out;
